@@ -94,6 +94,18 @@ def rename_key(key, ren):
     return s
 
 
+def annotated_binder(text):
+    """The serialised text has an annotated term where a quantifier expects a variable name."""
+    for m in re.finditer(r"\((?:exists|forall) \(", text):
+        i, depth = m.end(), 1
+        while i < len(text) and depth > 0:
+            if depth == 1 and text.startswith("((! ", i):
+                return True
+            depth += (text[i] == "(") - (text[i] == ")")
+            i += 1
+    return False
+
+
 def script_roundtrip(chk, text, dag, stats):
     r1 = c08.run_impl(text)
     if r1[0] != "ok":
@@ -125,6 +137,10 @@ def script_roundtrip(chk, text, dag, stats):
             key = "script:sort-name-not-quoted"
         elif "define-fun" in str(r2[2]):
             key = "script:define-fun-name-not-quoted"
+        elif "Annotations keyword should start with colon" in str(r2[2]):
+            key = "script:annotation-values-merged"
+        elif annotated_binder(text2):
+            key = "script:annotated-bound-variable"
         chk.violation({"kind": "input", "what": "the serialisation of a parsed script is rejected by the parser: %r" % (r2[2],),
                        "repro": text, "serialised": text2[:3000], "daggify": dag}, key=key)
         stats["script_failures"] += 1
@@ -221,6 +237,7 @@ PRE = ("From Coq Require Import List ZArith Bool String Ascii.\n"
 
 def run(tier):
     chk = lib.Check("C09", tier)
+    warnings.simplefilter("ignore")          # 'Division by 0' of the formula generator
     rnd = random.Random(chk.seed)
     sys.setrecursionlimit(20000)
     gen_all.regen_all()
